@@ -29,7 +29,8 @@ var c05TokPools = map[string][]string{
 }
 
 var c05ExprPool = []string{"1+2", "a+b", "a<=b", "a<>b", "1<<2", "a>=b", "a>>1", "a!=b", "A+a", "f(1,2)", "Max(a,b)", "(", ")", "1 2", "a b NULL", "a IS NULL", "a NOT IN b", "a[1]", "'x'+'y'", "-a", "NOT a", "1/0", "", "  ",
-	"/*c*/", "a AND", "@", "x IS NOT NULL", "b", "a+", "1e2+1.5", "\"a b\"+1", "\U0001F600", "TRUE AND FALSE", "1 IN Array(1,2)", "a LIKE b", "2^3", "If(a,b,c)", "c*(a+b)", "a<=b AND b<>c OR a<<1>=2", "Min(a,b,c)+zz"}
+	"/*c*/", "a AND", "@", "x IS NOT NULL", "b", "a+", "1e2+1.5", "\"a b\"+1", "\U0001F600", "TRUE AND FALSE", "1 IN Array(1,2)", "a LIKE b", "2^3", "If(a,b,c)", "c*(a+b)", "a<=b AND b<>c OR a<<1>=2", "Min(a,b,c)+zz",
+	"'1'+(1+2)", "1+'1'", "'7'", "7+1", "'2.5'+2.5", "2.5+'2.5'", "'TRUE'+1", "\"1\"+1", "1", "'1'"}
 
 var c05TmplPool = []string{"x", "{{a}}", "{{{a}}}", "{{#a}}x{{/a}}", "{{^a}}y{{/a}}", "{{#if a}}x{{/if}}", "{{#unless a}}x{{/unless}}", "{{#a}}x", "{{/a}}", "{{a", "{{a}}}", "{{{a}}", "{{!c}}", "Hello {{NAME}}!",
 	"{{#a}}{{#b}}x{{/b}}{{/a}}", "{{#a}}x{{/b}}", "", "{{}}", "{{a b}}", "{{#if}}", "x{{a}}y{{b}}z", "{{'q'}}", "я{{я}}", "{{a}}{{A}}", "{{zz}}{{#zz}}1{{/zz}}", "{{^b}}{{c}}{{/b}}"}
@@ -215,6 +216,35 @@ func c05RunSeq(c *fw.Ctx, ob c05Object, seq []int) {
 }
 
 // abort: SetReader on x, fetch k tokens, abandon, then tokenize y.
+// c05SameScanner: one tokenizer and ONE scanner object: start an iteration, query HasNextToken,
+// rewind the scanner with Reset and hand the same object to TokenizeStream again.
+func c05SameScanner(c *fw.Ctx, kind string, o int, x string, k int) {
+	t := newTokenizer(kind)
+	setOptions(t, o)
+	sc := rio.NewStringScanner(x)
+	want := tokenize(kind, o, x)
+	if want.failed() {
+		return
+	}
+	var got []*tokenizers.Token
+	pv := fw.Try(func() {
+		t.SetReader(sc)
+		for i := 0; i < k; i++ {
+			if t.NextToken() == nil {
+				break
+			}
+		}
+		t.HasNextToken()
+		sc.Reset()
+		got = t.TokenizeStream(sc)
+	})
+	c.Eval(1)
+	c.Nontrivial()
+	if pv != nil || tokStr(toRecs(got)) != tokStr(want.toks) {
+		c.Violation("stale-lookahead-on-same-scanner:"+kind, "%s tokenizer %s: SetReader(sc over %q), %d fetches, HasNextToken, sc.Reset(), TokenizeStream(sc) gives %s (panic %v); a fresh tokenizer gives %s", kind, optStr(o), x, k, tokStr(toRecs(got)), pv, tokStr(want.toks))
+	}
+}
+
 func c05Abort(c *fw.Ctx, kind string, o int, x string, k int, y string) bool {
 	t := newTokenizer(kind)
 	setOptions(t, o)
@@ -328,6 +358,16 @@ func c05EntryPoints(c *fw.Ctx, kind string, in string) {
 		got := safeObs(func() string { return obs(p2, p2.ParseTokens(p1.OriginalTokens())) })
 		if got != want && len(p1.OriginalTokens()) > 0 {
 			c.Violation("entry-point-differs:ParseTokens", "expression %q: ParseTokens(OriginalTokens()) gives %s, ParseString gives %s", in, got, want)
+		}
+		// the text composed from the tokens, submitted as a string to the same instance, is parsed afresh
+		if len(p1.OriginalTokens()) > 0 {
+			composed := p2.Expression()
+			pf := parsers.NewExpressionParser()
+			wantC := safeObs(func() string { return obs(pf, pf.ParseString(composed)) })
+			gotC := safeObs(func() string { return obs(p2, p2.ParseString(composed)) })
+			if gotC != wantC {
+				c.Violation("entry-point-differs:ParseString-after-ParseTokens", "expression %q: after ParseTokens the same parser given its own composed text %q yields %s, a fresh parser yields %s", in, composed, gotC, wantC)
+			}
 		}
 		p3 := parsers.NewExpressionParser()
 		got = safeObs(func() string { return obs(p3, p3.SetExpression(in)) })
@@ -517,6 +557,9 @@ func init() {
 							x := int(i) / len(pool) / maxK
 							return fmt.Sprintf("%s tokenizer %s: SetReader(%q), %d fetches, abandon, then %q", kind, optStr(o), pool[x], k+1, pool[y])
 						}})
+					sp = append(sp, fw.Space{Name: fmt.Sprintf("same-scanner:%s%s", kind, optStr(o)), N: int64(len(pool) * 4),
+						Run:  func(c *fw.Ctx, i int64) { c05SameScanner(c, kind, o, pool[int(i)/4], int(i)%4) },
+						Repr: func(i int64) string { return fmt.Sprintf("%s tokenizer %s: same scanner over %q re-used after %d fetches", kind, optStr(o), pool[int(i)/4], int(i)%4) }})
 					m := 4
 					if tier == "thorough" {
 						m = 6
